@@ -1,11 +1,16 @@
 /* vx: the executor.  mpirun -np N vx job.txt outdir workdir
  * Executes a job (list of cases; a case is a list of per-rank ops) against the real library and
  * logs one result line per (case, line, rank).  Nothing is judged here.  DESIGN.md 3.2 / Appendix B. */
+#include <sys/resource.h>
+#include <sys/time.h>
 #include "vx_core.h"
 #include "vx_data.h"
 #include "vx_meta.h"
 
 static void flush_log(void) { if (g_log) fflush(g_log); }
+static double g_t0; static long g_rss0;
+static double now_s(void) { struct timeval tv; gettimeofday(&tv, NULL); return tv.tv_sec + tv.tv_usec * 1e-6; }
+static long rss_kb(void) { struct rusage ru; getrusage(RUSAGE_SELF, &ru); return ru.ru_maxrss; }
 
 static void on_signal(int sig)
 {
@@ -164,7 +169,7 @@ int main(int argc, char **argv)
             }
             PMPI_Barrier(MPI_COMM_WORLD);
             shim_case_reset(fr == g_rank ? fn : 0, fc); shim_trace_on = trace_on;
-            ledger_mark();
+            ledger_mark(); g_t0 = now_s(); g_rss0 = rss_kb();
             OUT("B %d %s\n", g_case, g_casename);
             continue;
         }
@@ -173,7 +178,7 @@ int main(int argc, char **argv)
                 board_barrier(1000000 + lineno);
                 cleanup_case();
                 board_barrier(2000000 + lineno);
-                OUT("E %d inj=%d fault_hit=%d where=%s ncoll=%ld nindep=%ld", g_case, shim_inj, shim_fault_hit, shim_fault_where[0] ? shim_fault_where : "-", shim_ncoll, shim_nindep);
+                OUT("E %d inj=%d fault_hit=%d where=%s ncoll=%ld nindep=%ld ms=%.1f rss_kb=%ld", g_case, shim_inj, shim_fault_hit, shim_fault_where[0] ? shim_fault_where : "-", shim_ncoll, shim_nindep, (now_s() - g_t0) * 1000.0, rss_kb() - g_rss0);
                 if (board_active() && g_rank == 0) {
                     board_t *B = board_ptr(); int i, j;
                     OUT(" sched=");
